@@ -17,7 +17,7 @@
 
 import logging
 import logging.config
-import os
+import sys
 
 
 def warning(msg, *args, **kwargs):
@@ -80,11 +80,24 @@ def init(cfg=None):
     """
     Configure the deep log provider.
 
+    A file given as LOGGING_CONF is handed to the python logging config as it is. Without one we configure our own
+    'deep' logger only (what logging.conf describes for it): the root logger, its level and its handlers belong to
+    the application, and logging.config.fileConfig always replaces them.
+
     :param cfg: the config for deep.
     """
-    log_conf = "%s/logging.conf" % os.path.dirname(os.path.realpath(__file__))
-
     if cfg is not None and cfg.LOGGING_CONF:
-        log_conf = cfg.LOGGING_CONF
+        logging.config.fileConfig(fname=cfg.LOGGING_CONF, disable_existing_loggers=False)
+        return
 
-    logging.config.fileConfig(fname=log_conf, disable_existing_loggers=False)
+    logger = logging.getLogger("deep")
+    for handler in list(logger.handlers):
+        if getattr(handler, 'deep_default', False):
+            logger.removeHandler(handler)
+    handler = logging.StreamHandler(sys.stdout)
+    handler.deep_default = True
+    handler.setLevel(logging.DEBUG)
+    handler.setFormatter(logging.Formatter("%(asctime)s - %(name)s - %(levelname)s - %(message)s"))
+    logger.addHandler(handler)
+    logger.setLevel(logging.DEBUG)
+    logger.propagate = False
